@@ -34,6 +34,9 @@ def entries_by_file(sr, h):
 def history(task):
     rng = rng_for(task['seed'], 'C12', task['idx'])
     params = {'mode': rng.choice(['strict', 'strict', {'alo': 1}, {'alo': 4}]), 'sched': 'ms:1', 'backend': rng.choice(['fd', 'mmap']), 'via': 'builder', 'key': 'k'}
+    early = task['idx'] % 4 == 1
+    if early and rng.random() < 0.8:
+        params['mode'] = rng.choice(['strict', {'alo': 1}])     # every early read is persisted
     d = fresh_dir('c12')
     params['dir'] = d
     sr = SeqRunner(task['binary'], timeout=240.0, stop_on=('stream', 'open', 'dead'))
@@ -47,9 +50,12 @@ def history(task):
         tag[0] += 1
         return tag[0]
     deletions = []
+    hw = {}     # topic -> highest number of entries ever returned by consuming reads (AtLeastOnce may step back after a restart)
     def drain_trace(files_map, when):
         tr = sr.call({'op': 'take_trace'}).get('trace', [])
         I = sr.inst[1]
+        for t, T in I.topics.items():
+            hw[t] = max(hw.get(t, 0), T.consumed)
         for e in tr:
             if e['kind'] in ('deletion_requested', 'remove'):
                 f = e['path']
@@ -59,7 +65,7 @@ def history(task):
                 if ents is None:
                     stat('deletion_events_unmapped')
                     continue
-                unc = [(t, i) for t, i in ents if i >= I.topics[t].consumed]
+                unc = [(t, i) for t, i in ents if i >= hw.get(t, 0)]
                 if unc:
                     by_t = {}
                     for t, i in unc:
@@ -76,6 +82,15 @@ def history(task):
         # ---- phase 1: fill until the first segment is fully allocated (>= 100 blocks) and a second one exists
         n = 0
         full_file = None
+        if early:
+            # consumers that read a little while the topic is young (their persisted position points into the writer's active block) and then
+            # fall behind while the writer fills the file
+            for t in topics:
+                for _ in range(rng.choice([1, 1, 2])):
+                    sr.do_append(1, t, newtag(), rng.choice([16, 100, 300]))
+                for _ in range(rng.choice([1, 1, 2])):
+                    sr.do_read_next(1, t, True)
+            stat('plan:early-tail-consumers')
         while n < 130:
             t = topics[n % len(topics)] if rng.random() < 0.8 else rng.choice(topics)
             ln = rng.randint(5_300_000, 6_000_000)
@@ -116,7 +131,11 @@ def history(task):
             else:
                 k = rng.choice([0, 0, rng.randint(0, total), last_in_full, max(last_in_full - 1, 0), total])
             plan[t] = k
-        legit = rng.random() < 0.4
+        legit = rng.random() < 0.4 and not early
+        if early:
+            for t in topics:
+                if rng.random() < 0.9:
+                    plan[t] = I.topics[t].consumed      # nothing more is consumed
         if legit:
             # every entry of the full file is consumed and the reader steps past its last block (blocks are marked lazily, when a read
             # moves on): the deletion is legitimate, the interesting part is what follows it
@@ -166,13 +185,14 @@ def history(task):
         stat('files_removed', len(gone))
         # ---- phase 4: the running process keeps working ...
         for t in topics:
-            for _ in range(rng.randint(0, 2)):
+            for _ in range(rng.randint(0, 2) if not early else 0):      # (the early consumers stay where they were)
                 sr.do_read_next(1, t, True)
             if rng.random() < 0.5:
                 sr.do_append(1, t, newtag(), rng.choice([100, 5_500_000]))
             sr.do_count(1, t)
         # ... and a fresh process after the (possible) deletion must still deliver every unconsumed entry
-        kind = rng.choice(['restart', 'restart', 'reopen'])
+        kind = rng.choice(['restart', 'restart', 'reopen', 'reopen'] + (['reopen'] * 8 if early else []))
+        drain_trace(fmap, 'before-' + kind)
         if kind == 'restart':
             sr.restart_process()
             sr.call({'op': 'trace_on', 'on': True})
@@ -181,6 +201,32 @@ def history(task):
         stat(kind)
         if gone:
             stat('deleted_then_restarted')
+        elif early or rng.random() < 0.75:
+            # the new lifetime idles (peeks, polls of drained topics) while the reclaimer makes two passes over the recovered state: recovery
+            # re-registers every block and rebuilds the per-file counters (in the same process for a reopen, where the trackers outlive the
+            # instance); nothing has been consumed since, so no file holding an unconsumed entry may go
+            fmap2 = entries_by_file(sr, 1)
+            if fmap2 is not None:
+                for t in topics:
+                    for _ in range(rng.choice([0, 2, 10])):
+                        if I.topics[t].remaining == 0 and I.strict:
+                            sr.do_read_next(1, t, True)
+                        else:
+                            sr.do_batch_read(1, t, rng.choice([0, 1, 1 << 20]), False)
+                r = sr.call({'op': 'wait_reclaim', 'passes': 2, 'timeout_ms': 60000})
+                if not r.get('ok'):
+                    out['inconclusive'] = 'reclaimer made no pass within the watchdog (after %s)' % kind
+                    return out
+                stat('reclaim_passes_awaited', 2)
+                stat('idle_after_' + kind)
+                drain_trace(fmap2, 'idle-after-' + kind)
+                gone2 = [f for f in fmap2 if not os.path.exists(f)]
+                stat('files_removed_after_' + kind, len(gone2))
+                if gone2:
+                    # what was unlinked is still mapped in this process: judge delivery from a fresh one
+                    sr.restart_process()
+                    sr.call({'op': 'trace_on', 'on': True})
+                    stat('restart_after_idle_deletion')
         for t in topics:
             if I.strict:
                 sr.do_count(1, t)
@@ -216,10 +262,10 @@ def history(task):
     return out
 
 RULE = ('each history fills a 1 GiB segment completely (>= 100 blocks; 2-3 topics alternating 5.3-6 MiB appends, one entry per block) with FsyncSchedule::Milliseconds(1), '
-        'then consumes per topic according to a drawn plan (nothing / part / exactly to the end of the topic\'s last block in the full file / everything; one third of the '
+        'then consumes per topic according to a drawn plan (a quarter of the histories let every consumer read one or two entries while its topic is young and mostly nothing afterwards; otherwise nothing / part / exactly to the end of the topic\'s last block in the full file / everything; one third of the '
         'histories consume the whole file so that a legitimate deletion happens), mixes read_next, batch reads, peeks, up to 60 polls at the reached position and up to 40 '
-        'empty polls, waits for two reclaim passes through the reclaim-pass counter, continues in the running process and finally restarts (fresh process) or reopens and '
-        'drains every topic. Oracle 1 (events): at every deletion_requested / remove event every entry stored in that file had been returned by a consuming read (entry -> '
+        'empty polls, waits for two reclaim passes through the reclaim-pass counter, continues in the running process and finally restarts (fresh process) or reopens '
+        '(same process: the global trackers survive), in three quarters of the histories idles through two more reclaim passes in the new lifetime, and drains every topic. Oracle 1 (events): at every deletion_requested / remove event every entry stored in that file had been returned by a consuming read (entry -> '
         'file through the layout accessor). Oracle 2: lock-step sequential model before and after the restart (StrictlyAtOnce: exact continuation and counts; AtLeastOnce: no '
         'skip). non-trivial = file fully allocated and reclaim passes awaited; distinct = distinct (seed, index)')
 
